@@ -788,11 +788,14 @@ def check_docs(ctx, docs, fmts=FORMATS, modes=MODES):
 
     # the real binary
     lines, meta = [], []
-    for lab, b in docs:
+    for idx, (lab, b) in enumerate(docs):
         if b not in usable_set:
             continue
+        # file2: the -o and -e files already exist and are longer than what this run writes; what the run leaves in them
+        # must not depend on that (same oracle as for a fresh file)
+        mds = list(modes) + (["file2"] if "file" in modes and idx % 4 == 0 else [])
         for f in fmts:
-            for md in modes:
+            for md in mds:
                 lines.append("cli %s %s %s" % (f, md, iongen.hx(b)))
                 meta.append((lab, b, f, md))
     go = run_go(lines, per_case_timeout=25, extra_env={"VH_IONGO": IONGO})
